@@ -8,7 +8,11 @@ CONSTANTS
   EofWithData = TRUE
   ShapesA <- LocalShapes
   ShapesB <- AllShapes
-  DevDrainDeadline = FALSE
+  DevDeadlineAt = "none"
+  DevDeadlineHits = {"read"}
+  Monitor = FALSE
+  IdleMax = 2
+  DevMonNoFeed = FALSE
   DevCloseWriterFallback = FALSE
   Emit = FALSE
   Classes = {1, 2, 3, 4}
@@ -29,8 +33,9 @@ CONSTANTS
   DevNoInnerFlush = FALSE
   SockQueue = FALSE
   DevQueueRefs = FALSE
+  DevSockDeadline = FALSE
   DevDropOnClose = FALSE
 SPECIFICATION USpec
-INVARIANTS UTypeOK UDatagrams UComplete UCompleteAny UEncoded UFlushed UMutex UBuf UBatchFits
+INVARIANTS UTypeOK UDatagrams UComplete UCompleteAny UEncoded UFlushed UMutex UBuf UBatchFits UNoSpuriousEnd
 PROPERTIES UDelivMonotone UEventuallyFlushed UTermination
 CHECK_DEADLOCK FALSE
